@@ -26,9 +26,10 @@ WithSegs == Alpha \in {"all", "parsed", "sim"}
 WithParse == (Alpha = "parsed" /\ hn = 0) \/ Alpha = "sim"
 ParseFirst == Alpha = "parsed" /\ hn = 0
 
-\* history menu of payload lengths: the shortest and the nominal / longest one of the case menu
-HLens(sg, i) == IF sg[i].raw THEN {sg[i].lens[1], sg[i].size} ELSE {sg[i].lens[1], sg[i].lens[Len(sg[i].lens)]}
-HLen0(sg, i) == IF sg[i].raw THEN sg[i].size ELSE sg[i].lens[1]
+\* history menu of payload lengths: the shortest and the nominal / longest one of the case menu (a fixed-size block: created with the
+\* nominal length, replaced by one that is shorter than its slot - the rest of the slot turns into gap on the live object - and back)
+HLens(sg, i) == IF sg[i].fixed THEN {sg[i].lens[1], sg[i].size} ELSE {sg[i].lens[1], sg[i].lens[Len(sg[i].lens)]}
+HLen0(sg, i) == IF sg[i].fixed THEN sg[i].size ELSE sg[i].lens[1]
 HReqs(sg) == LET so == StaticOffsIn(sg) IN {0} \cup so \cup (IF Snap THEN { o - 1 : o \in so \ {0} } ELSE {})
 
 HGInit == /\ lane \in Lanes /\ tb \in DOMAIN Tables
@@ -40,11 +41,12 @@ HGInit == /\ lane \in Lanes /\ tb \in DOMAIN Tables
           /\ hn = 0 /\ seen = Mat([i \in DOMAIN Tables[tb].segs |-> FALSE]) /\ pp = Mat([i \in DOMAIN Tables[tb].segs |-> 0])
 
 Place == Mat([i \in S |-> IF Included(i) THEN <<Off(i), SegLen(i)>> ELSE <<0 - 1, 0>>])
+Rests == Mat([i \in S |-> IF Included(i) THEN RestBehind(i) ELSE 0])
 Keep == UNCHANGED <<lane, c0, hist, fin>>
 Rec(a) == hist' = Append(hist, a) /\ UNCHANGED <<lane, c0, fin>>
 MayChange == hn < Depth /\ ~ParseFirst /\ (Free \/ ph \in {"parse", "done"})
 
-GBuild == HBuild /\ Rec([a |-> "Build", eff |-> Eff, place |-> Place, total |-> Total])
+GBuild == HBuild /\ Rec([a |-> "Build", eff |-> Eff, place |-> Place, rest |-> Rests, total |-> Total])
 GGap == HGap /\ Keep
 GSeg == HSeg /\ Keep
 GEnd == HEnd /\ Keep
@@ -52,7 +54,7 @@ GSetInit == MayChange /\ \E r \in HReqs(Segs) \ {cs.req} : HSetInit(r) /\ Rec(ac
 GSetSeg == MayChange /\ WithSegs /\ \E i \in S : \E n \in HLens(Segs, i) :
               (~cs.present[i] \/ n # cs.plen[i]) /\ HSetSeg(i, n) /\ Rec(act')
 GClearSeg == MayChange /\ WithSegs /\ \E i \in S : HClearSeg(i) /\ Rec(act')
-GExport == HExport /\ Rec([a |-> "Export", eff |-> Eff, place |-> Place, total |-> Total])
+GExport == HExport /\ Rec([a |-> "Export", eff |-> Eff, place |-> Place, rest |-> Rests, total |-> Total])
 GParse == WithParse /\ hn < Depth /\ HParse /\ Rec([a |-> "Parse"])
 \* the generator's stand-in for the length parse returns: the payload, a fixed-size block filled up to its size
 GParseSeg == HParseSeg(IF Segs[nx].size > SegLen(nx) THEN Segs[nx].size ELSE SegLen(nx)) /\ Keep
